@@ -1014,7 +1014,8 @@ class EEA:
         if isinstance(test, ast.Call) and isinstance(test.func, ast.Name) and test.func.id == "isinstance" and len(test.args) == 2:
             ty = norm(test.args[1])
             if ty in ("dict", "Mapping", "(dict, Mapping)", "(Mapping, dict)", "MutableMapping", "collections.abc.Mapping"):
-                pos.add(("isdict", norm(test.args[0])))
+                a0_ = test.args[0]
+                pos.add(("isdict", norm(a0_.target if isinstance(a0_, ast.NamedExpr) else a0_)))  # `isinstance(x := f(), dict)` is about x
             return frozenset(pos), frozenset(neg)
         if isinstance(test, ast.Name):
             la = self.I.local_assigns(st.fr.func).get(test.id) or []
@@ -1308,7 +1309,7 @@ class EEA:
             if dfn is not None and dfn.kind == "func":
                 # `raise _make_error(err) from err`: an exception factory - the classes its returns construct
                 e = self.merge(e, self.expr(x, st))
-                classes = self._factory_classes(dfn.obj, 0)
+                classes = self._factory_classes(dfn.obj, 0, x, fr)
                 if not classes:
                     raise AnalysisError(f"cannot tell which exception {norm(x.func)} builds at {fr.module.relpath}:{s.lineno}")
                 for c in sorted(classes):
@@ -1338,16 +1339,29 @@ class EEA:
             e = self.merge(e, self._one(c, self.site(fr, s, "raise", f"raise {norm(x)}"), fr))
         return e
 
-    def _factory_classes(self, h: FuncInfo, depth: int) -> set:
-        """Exception classes a factory function returns (every return is a constructor call, or another factory)."""
+    def _factory_classes(self, h: FuncInfo, depth: int, call: ast.Call | None = None, cfr: Frame | None = None) -> set:
+        """Exception classes a factory function returns (every return is a constructor call, or another factory); the
+        class may be a parameter of the factory (`_failure(TransportError, "reading", err)`): the argument of this call."""
         out: set = set()
         if depth > 2:
             return set()
         hfr = Frame(self.I.make_callee(h, h.cls), None)
+        params = [p_ for p_ in h.positional_params if not (p_ in ("self", "cls") and h.cls is not None)]
         for r in self.I.return_exprs(h):
             if not isinstance(r, ast.Call):
                 return set()
-            c = self.exc_class_of(r.func, hfr)
+            c = None
+            if isinstance(r.func, ast.Name) and r.func.id in h.params and call is not None and cfr is not None and not any(isinstance(n_, ast.Name) and n_.id == r.func.id and isinstance(n_.ctx, ast.Store) for n_ in ast.walk(h.node)):
+                arg = None
+                if r.func.id in params and params.index(r.func.id) < len(call.args):
+                    arg = call.args[params.index(r.func.id)]
+                for kw in call.keywords:
+                    if kw.arg == r.func.id:
+                        arg = kw.value
+                if arg is not None:
+                    c = self.exc_class_of(arg, cfr)
+            else:
+                c = self.exc_class_of(r.func, hfr)
             if c is None:
                 return set()
             d = self.prog.lookup_fullname(c) if c.startswith(PKG) else None
@@ -1700,6 +1714,10 @@ class EEA:
                 self.assumptions_used.add("A3")
                 self.discharged.append({"site": self.site(fr, e, "subscript").loc(), "what": f"{base_txt}[{key_txt}]", "by": "the dumped object is of the annotated class whose constructor stores every schema field (A3): the mapping has every field of self.fields"})
                 return {}
+            if isinstance(e.ctx, ast.Load) and is_map and self.snapshot_key(e, fr):
+                self.assumptions_used.add("A2")
+                self.discharged.append({"site": self.site(fr, e, "subscript").loc(), "what": f"{base_txt}[{key_txt}]", "by": "the key iterates a snapshot of the same dict, this function holds the only removal sites and has not removed it in this iteration (A2: one listener)"})
+                return {}
             if bt in ("Any", ""):
                 # class-level generic alias etc. (e.g. Callable[...] in annotations) is never evaluated here
                 if not is_map:
@@ -1786,8 +1804,18 @@ class EEA:
                                 arg = kw.value
                         v = self.min_count(g, arg, ch, depth + 1) if arg is not None else 0
                         best = v if best is None else min(best, v)
+                # `map(f, <iterable>)`: f is called with the elements of the iterable as its first argument
+                mapped = set()
+                for g in self.prog.all_functions():
+                    for c in self.I.own_nodes(g):
+                        if isinstance(c, ast.Call) and isinstance(c.func, ast.Name) and c.func.id == "map" and len(c.args) == 2 and not c.keywords:
+                            r0 = c.args[0]
+                            if (isinstance(r0, ast.Attribute) and r0.attr == f.name) or (isinstance(r0, ast.Name) and r0.id == f.name):
+                                mapped.add(id(r0))
+                                v = self.min_count_elems(g, c.args[1], ch, depth + 1) if pos and e.id == pos[0] else 0
+                                best = v if best is None else min(best, v)
                 # references that are not calls (passed as a callback) make the call sites unknown
-                refs = sum(1 for g in self.prog.all_functions() for x in self.I.own_nodes(g) if (isinstance(x, ast.Attribute) and x.attr == f.name or isinstance(x, ast.Name) and x.id == f.name) and not (isinstance(self.prog.parents.get(x), ast.Call) and self.prog.parents[x].func is x))
+                refs = sum(1 for g in self.prog.all_functions() for x in self.I.own_nodes(g) if id(x) not in mapped and (isinstance(x, ast.Attribute) and x.attr == f.name or isinstance(x, ast.Name) and x.id == f.name) and not (isinstance(self.prog.parents.get(x), ast.Call) and self.prog.parents[x].func is x))
                 return 0 if best is None or refs else best
             vals = []
             n_for = 0
@@ -2234,6 +2262,24 @@ class EEA:
             self.missing_summaries.setdefault(name, f"{fr.module.relpath}:{e.lineno}")
             return {}
         self.summaries_used[name] = sm.why
+        if name in ("builtins.map", "builtins.filter") and e.args:
+            # the mapped function runs while the result is iterated (here: by the caller that consumes it): what it can
+            # raise is attributed to this site
+            out_m: dict = {}
+            vals = self.I.eval(e.args[0], fr)
+            a0 = e.args[0]
+            if (not vals or UNKNOWN in vals) and isinstance(a0, ast.Attribute) and isinstance(a0.value, ast.Name) and a0.value.id in ("self", "cls") and fr.func.cls is not None:
+                kls = fr.callee.cls or fr.func.cls
+                meth = kls.find_method(a0.attr)
+                if meth is not None:
+                    vals = frozenset([self.I.make_callee(meth, kls)])
+            if not vals or UNKNOWN in vals or not all(isinstance(v, Callee) for v in vals):
+                self.missing_summaries.setdefault(f"{name}(<{norm(e.args[0])[:40]}>)", f"{fr.module.relpath}:{e.lineno}")
+                return {}
+            for v in sorted(vals, key=repr):
+                sub = self.escapes(Frame(v, fr.V, (), frozenset()))
+                out_m = self.merge(out_m, self._through(sub, fr))
+            return out_m
         if sm.raises == "MM-LOAD":
             return self.mm_load(e, st)
         if sm.raises == "MM-DUMP":
@@ -2288,14 +2334,26 @@ class EEA:
                 return True
         return False
 
-    def snapshot_key(self, e: ast.Call, fr: Frame) -> bool:
-        """D.pop(K): K is the key target of a loop over a snapshot {k: v for k, v in D.items() ...} of the same D,
-        and every removal from D's attribute in the package is in this function."""
+    def snapshot_key(self, e: ast.AST, fr: Frame) -> bool:
+        """D.pop(K) / D[K]: K is the key target of a loop over a snapshot {k: v for k, v in D.items() ...} of the same
+        D, and every removal from D's attribute in the package is in this function."""
         f = fr.func
-        k = e.args[0]
-        d_txt = norm(e.func.value)
+        if isinstance(e, ast.Subscript):
+            k, d_txt = e.slice, norm(e.value)
+        else:
+            k, d_txt = e.args[0], norm(e.func.value)
         if not isinstance(k, ast.Name):
             return False
+        if isinstance(e, ast.Subscript):
+            # a read: the key must not have been removed by this function earlier in the same iteration
+            from .cfg import CFG
+
+            g_ = CFG(f.node)
+            here = g_.nodes_where(lambda x: x.contains(e))
+            pops_ = [x for x in g_.nodes if x.ast is not None and x.kind in ("stmt", "test") and any(isinstance(c, ast.Call) and isinstance(c.func, ast.Attribute) and c.func.attr in ("pop", "popitem", "clear") and norm(c.func.value) == d_txt for p_ in x.parts() for c in ast.walk(p_))]
+            heads = [x for x in g_.nodes if x.kind == "iter"]
+            if pops_ and here and g_.reach_avoiding(pops_, lambda x: x in here, lambda x: x in heads) is not None:
+                return False
         snap = None
         # comprehension form: [D.pop(k) for k in keys]
         cur = self.prog.parents.get(e)
